@@ -121,8 +121,12 @@ Mismatch(s, e) ==
         scale == MuMax(s.p)
         nc == Len(s.vec.colid)
         support == { r \in 1..s.vec.nr : s.vec.src[r] # 0 }
-    IN IF o.exc # "" THEN (IF s.pc = "raised" /\ s.exc = o.exc THEN ""
+    IN IF ~o.intact THEN "inputs-modified"       \* the matrices handed over (csr / csc / coo) must come back unchanged
+       ELSE IF o.exc # "" THEN (IF s.pc = "raised" /\ s.exc = o.exc THEN ""
                           ELSE IF s.pc = "raised" THEN "exception-class" ELSE "unexpected-exception")
+       ELSE IF s.pc = "done" /\ s.unspec
+       THEN \* a listed deviation makes the returned pairs unspecified (how many survive the sort included)
+            (IF o.nr = s.vec.nr THEN "" ELSE "shape-of-modes")
        ELSE IF s.pc # "done" THEN (IF s.exc = "solver-contract" THEN "solver-return(count/selection/order)"
                                   ELSE "expected-exception")
        ELSE IF o.nvals # Len(s.vals) THEN "number-of-values"
